@@ -45,7 +45,10 @@ type ScriptConn struct {
 	written    []jsonrpc.Message // messages whose Write returned nil, in completion order
 	writeTimes []time.Time       // time.Now() (the bubble's clock) when each written message completed
 	ClosedAt   time.Time         // time.Now() at the first Close
-	autoFail   error             // all later writes fail immediately with this
+	// CloseErr is what Close returns after it has closed the connection (a transport whose own shutdown
+	// reports a problem: a child process that exits non-zero, a farewell message that cannot be delivered).
+	CloseErr error
+	autoFail error // all later writes fail immediately with this
 
 	clock    int                       // logical event counter
 	OnWrite  func(msg jsonrpc.Message) // optional synchronous hook when a Write call starts
@@ -235,7 +238,7 @@ func (c *ScriptConn) Close() error {
 		default:
 		}
 	}
-	return nil
+	return c.CloseErr
 }
 
 // IsClosed reports whether Close was called.
